@@ -67,6 +67,7 @@ type Case struct {
 	GcGen []int `json:"gcgen"`
 	Muts  []Mut `json:"muts"`
 	Gm    bool  `json:"gm"` // table: also run the getMany phase
+	Short []int `json:"short"` // table (probe only, never generated): ResolveShortHash of this prefix string
 
 	Phase string `json:"phase,omitempty"` // set by the parent: main | getmany
 	Dir   string `json:"dir,omitempty"`   // set by the parent: scratch directory of this case
@@ -100,6 +101,7 @@ type Obs struct {
 	Res      []AddrObs `json:"res"`
 	Iter     string    `json:"iter"`    // ok | bad | err | panic | skip
 	IterN    int       `json:"itern"`   // chunks delivered by the iteration
+	Short    string    `json:"short,omitempty"` // probe: ok | err | panic
 	GetMany  string    `json:"getmany"` // ok | bad | err | crash | skip
 	Detail   []string  `json:"detail,omitempty"`
 	CrashMsg string    `json:"crashmsg,omitempty"`
@@ -424,6 +426,18 @@ func workTable(c *Case) (any, error) {
 		}
 		o.Res = append(o.Res, r)
 	}
+	if len(c.Short) > 0 {
+		o.Short, msg = safe(func() string {
+			_, _, err := tbl.ResolveShortHash(toBytes(c.Short))
+			if err != nil {
+				return "err"
+			}
+			return "ok"
+		})
+		if msg != "" {
+			o.Detail = append(o.Detail, "short: "+msg)
+		}
+	}
 	o.Iter, msg = safe(func() string {
 		res := "ok"
 		err := tbl.IterateAll(ctx, func(h hash.Hash, d []byte) {
@@ -619,7 +633,7 @@ func ask(c *Case) (line childLine, crashed bool, crashMsg string, err error) {
 	var r rd
 	select {
 	case r = <-ch:
-	case <-time.After(60 * time.Second):
+	case <-time.After(240 * time.Second):
 		k.cmd.Process.Kill()
 		r = rd{nil, errors.New("timeout")}
 	}
